@@ -51,6 +51,9 @@ fn install_panic_hook() {
                 format!(" at {}:{}", short, l.line())
             })
             .unwrap_or_default();
+        if std::env::var_os("ZKSIM_PANIC_LOG").is_some() {
+            eprintln!("panic: {msg}{loc}");
+        }
         LAST_PANIC.with(|p| *p.borrow_mut() = Some(format!("{msg}{loc}")));
     }));
 }
